@@ -664,6 +664,54 @@ def rule_r7(ctx) -> List[R.Inst]:
     return insts
 
 
+def rule_r9(ctx) -> List[R.Inst]:
+    """chord-size options: AND_HIGHER adds every size sequence that is, position by position, from the SMALLEST given size up to
+    `keys`; AND_LOWER every one from 1 up to the LARGEST given size.  Read off the ranges generated under each option test:
+    `range(i, keys + 1) for i in np.min(sizes, axis=0)` and `range(1, i + 1) for i in np.max(sizes, axis=0)` (meshgrid or
+    itertools.product of them).  With one base sequence min and max coincide, so only the filter of several sequences shows a slip."""
+    M = ctx.M
+    rid = "C20.R9"
+    fn = M.fn(FILTERS + ".PtnFilterChord.create")
+    file = M.mods[fn.mod].rel
+    insts = []
+    want = {"AND_HIGHER": ("min", "I", "keys + 1"), "AND_LOWER": ("max", "1", "I + 1")}
+    for opt, (agg, lo_w, hi_w) in want.items():
+        key = f"chord-option:{opt}"
+        blk = next((n for n in walk_no_nested(fn.node) if isinstance(n, ast.If) and opt in unparse(n.test)), None)
+        if blk is None:
+            insts.append(R.undec(rid, key, file, fn.node.lineno, f"branch for {opt} not found"))
+            continue
+        comp = None
+        for c in ast.walk(blk):
+            if isinstance(c, (ast.ListComp, ast.GeneratorExp)) and len(c.generators) == 1 and isinstance(c.generators[0].target, ast.Name):
+                rg = next((x for x in ast.walk(c.elt) if isinstance(x, ast.Call) and call_name(x) == "range"), None)
+                it = c.generators[0].iter
+                if rg is not None and isinstance(it, ast.Call) and call_name(it) in ("min", "max", "amin", "amax"):
+                    comp = (c, rg, it)
+        if comp is None:
+            insts.append(R.undec(rid, key, file, blk.lineno, "per-position ranges not recognised"))
+            continue
+        c, rg, it = comp
+        v = c.generators[0].target.id
+        lo = unparse(rg.args[0]) if len(rg.args) == 2 else "0"
+        hi = unparse(rg.args[-1])
+        got_agg = call_name(it).replace("a", "", 1) if call_name(it) in ("amin", "amax") else call_name(it)
+        axis0 = any(k.arg == "axis" and unparse(k.value) == "0" for k in it.keywords) or (len(it.args) > 1 and unparse(it.args[1]) == "0")
+        probs = []
+        if got_agg != agg:
+            probs.append(f"the per-position bound is the {got_agg} over the given sequences; {opt} starts from the {'smallest' if agg == 'min' else 'largest'} "
+                         f"given size ({agg}): with several base sequences, sequences that are {'higher' if agg == 'min' else 'lower'} than one of them are not generated")
+        if not axis0:
+            probs.append("the bound is not taken position by position (axis=0)")
+        if lo != lo_w.replace("I", v) or hi.replace(" ", "") != hi_w.replace("I", v).replace(" ", ""):
+            probs.append(f"the range is [{lo}, {hi}), expected [{lo_w.replace('I', v)}, {hi_w.replace('I', v)})")
+        if probs:
+            insts.append(R.viol(rid, key, file, rg.lineno, "; ".join(probs), construct=f"{opt}: range({lo}, {hi}) for {v} in {unparse(it)[:50]}"))
+        else:
+            insts.append(R.ok(rid, key, file, rg.lineno, idiom=f"range({lo}, {hi}) per position, bound = {agg} over the given sequences"))
+    return insts
+
+
 def rule_r8(ctx) -> List[R.Inst]:
     """combined filters stay filters: the base class's `filter` is a stub (the subclasses decide what a row is tested against, with
     `keys` and `invert_filter` as their parameters), so an operator of the base class (`a | b`, `a & b`) that builds its result with
@@ -732,6 +780,7 @@ SPECS = [
     RuleSpec("C20.R4", rule_r4, 7, "A7", "chord filter tests row membership; exclude = negation; option flags distinct bits"),
     RuleSpec("C20.R6", rule_r6, 2, "M0", "the type filter is issubclass, so the tags assigned by the pattern (note classes, HoldTail) are unrelated classes"),
     RuleSpec("C20.R7", rule_r7, 1, "A7", "template option flags: no conditional expression swallowing an unconditional flag"),
+    RuleSpec("C20.R9", rule_r9, 2, "A7", "AND_HIGHER / AND_LOWER generate the per-position ranges from the smallest / up to the largest given size"),
     RuleSpec("C20.R8", rule_r8, 1, "A7", "combined filters (a | b, a & b) are filters of the operands' class with the operands' parameters"),
     RuleSpec("C20.D", rule_dep, 1, "M0", "rules of the shared code (timing engine, list classes, stacker) that the operations of this property reach"),
 ]
